@@ -208,3 +208,132 @@ def check(impl, scn):
             if s["fifo"]:
                 f10.append(("conservation", "queue %s never forwarded seq=%s (silently lost, or the link went idle with a backlog)" % (q, [r["seq"] for r in s["fifo"]][:5])))
     return f9, f10, stats
+
+
+# ---- real traffic: queues of whole-network scenarios observed by a probe on either side -----------
+
+def add_link_probes(scn):
+    """Rewrite a network scenario (gen/net_gen.py shape) so that every queue sits between two probes:
+    `route out ip … qoK …` -> `… yoK qoK zoK …`, `route in ip qiK piK` -> `yiK qiK piK`,
+    `route net X net` -> `route net X yn net zn`. The first / last hops stay what they were."""
+    lines = scn.split("\n")
+    kinds = {}
+    for ln in lines:
+        tk = ln.split()
+        if len(tk) >= 3 and tk[0] == "hop": kinds[tk[1]] = tk[2]
+    out, new, seen = [], [], set()
+    for ln in lines:
+        tk = ln.split()
+        if len(tk) >= 4 and tk[0] == "route" and tk[1] in ("out", "in", "net"):
+            hs = tk[3:]; r = []
+            for i, h in enumerate(hs):
+                if kinds.get(h) == "queue":
+                    if not (i > 0 and kinds.get(hs[i - 1]) == "probe"):
+                        p = "y" + h; r.append(p)
+                        if p not in seen: seen.add(p); new.append("hop %s probe" % p)
+                    r.append(h)
+                    if not (i + 1 < len(hs) and kinds.get(hs[i + 1]) == "probe"):
+                        p = "z" + h; r.append(p)
+                        if p not in seen: seen.add(p); new.append("hop %s probe" % p)
+                else:
+                    r.append(h)
+            ln = " ".join(tk[:3] + r)
+        out.append(ln)
+    # declarations first (right after the `== id` line)
+    return "\n".join(out[:1] + new + out[1:])
+
+
+def check_links(impl, scn):
+    """C10 on real socket traffic (TCP handshakes, segments, ACKs, retransmissions, resets, UDP datagrams):
+    for every queue that has a probe immediately before and after it on every route it lies on, held bytes are
+    reconstructed from the two probes and
+      * a droppable packet (syn / payload) that arrives when held + size > capacity > 0 is never forwarded, any
+        other packet is (drop_iff / conservation; a drop is not announced in the trace here: TCP's callback
+        notifies the socket, UDP has none),
+      * whatever leaves the queue is, field for field (type, seq, len, overhead, sender, error code, byte
+        counter, payload digest, callback presence), a packet that entered it and has not left yet (conservation:
+        never duplicated, altered or invented),
+      * after a run() that returned with nothing stopped, no accepted packet is still inside (never silently lost).
+    Returns (c10_failures, stats)."""
+    f10 = []
+    stats = dict(link_queues=0, link_arrivals=0, link_departures=0, link_drops=0, link_tcp_drops=0, link_udp_drops=0,
+                 link_nonzero_bc=0, link_ec_packets=0, link_undroppable_over_capacity=0)
+    kinds, qcfg, routes = {}, {}, []
+    for ln in scn.split("\n"):
+        tk = ln.split()
+        if len(tk) >= 3 and tk[0] == "hop":
+            kinds[tk[1]] = tk[2]
+            if tk[2] == "queue":
+                d = _kv(tk[3:]); qcfg[tk[1]] = dict(cap=int(d.get("cap", 0)))
+        elif len(tk) >= 4 and tk[0] == "route":
+            routes.append(tk[3:])
+    if any(ln.split()[2:3] in (["stop"], ["throw"]) for ln in scn.split("\n") if ln.startswith("do ")):
+        return f10, stats
+    before, after, bad = {}, {}, set()
+    for hs in routes:
+        for i, h in enumerate(hs):
+            if kinds.get(h) != "queue": continue
+            if i > 0 and kinds.get(hs[i - 1]) == "probe" and i + 1 < len(hs) and kinds.get(hs[i + 1]) == "probe":
+                before[hs[i - 1]] = h; after[hs[i + 1]] = h
+            else:
+                bad.add(h)
+    # a probe must observe one queue side only, and an observed queue must be observed on all its routes
+    for p in list(before):
+        if before[p] in bad or (p in after and after[p] in bad): bad.add(before[p])
+    before = {p: q for p, q in before.items() if q not in bad}
+    after = {p: q for p, q in after.items() if q not in bad}
+    st = {q: dict(fifo=[], held=0, dropped={}) for q in set(before.values())}
+    stats["link_queues"] = len(st)
+    KEYS = ("type", "seq", "len", "ovh", "from", "ec", "bc", "drop", "pl")
+    quiescent = False
+    for ln in impl:
+        tk = ln.split()
+        if not tk: continue
+        if tk[0] == "R":
+            quiescent = "throw" not in ln
+            continue
+        if tk[0] == "X":
+            return f10, stats
+        if tk[0] != "P" or len(tk) < 3: continue
+        quiescent = False
+        d = _kv(tk[2:])
+        try:
+            key = tuple(d[k] for k in KEYS); size = int(d["len"]) + int(d["ovh"]); t = int(d["t"])
+        except (KeyError, ValueError):
+            continue
+        name = tk[1]
+        if name in after:
+            q = after[name]; s = st[q]
+            stats["link_departures"] += 1
+            idx = next((i for i, r in enumerate(s["fifo"]) if r[0] == key), None)
+            if idx is not None:
+                s["fifo"].pop(idx); s["held"] -= size
+            elif s["dropped"].get(key, 0) > 0:
+                s["dropped"][key] -= 1
+                f10.append(("drop_iff", "queue %s forwarded %s seq=%s (%d bytes) at t=%d although it overflowed the capacity %d on arrival" % (q, d["type"], d["seq"], size, t, qcfg[q]["cap"])))
+            else:
+                near = next((r for r in s["fifo"] if r[0][0] == key[0] and r[0][1] == key[1]), None)
+                if near is not None:
+                    diff = ", ".join("%s %s -> %s" % (k, a, b) for k, a, b in zip(KEYS, near[0], key) if a != b)
+                    f10.append(("conservation", "queue %s altered %s seq=%s in transit: %s" % (q, d["type"], d["seq"], diff)))
+                    s["fifo"].remove(near); s["held"] -= near[1]
+                else:
+                    f10.append(("conservation", "queue %s forwarded %s seq=%s at t=%d which it does not hold (duplicate or invented packet)" % (q, d["type"], d["seq"], t)))
+        if name in before:
+            q = before[name]; s = st[q]; cap = qcfg[q]["cap"]
+            stats["link_arrivals"] += 1
+            if d["bc"] != "0": stats["link_nonzero_bc"] += 1
+            if d["ec"] != "ok": stats["link_ec_packets"] += 1
+            over = cap > 0 and s["held"] + size > cap
+            if over and d["type"] in DROPPABLE:
+                s["dropped"][key] = s["dropped"].get(key, 0) + 1
+                stats["link_drops"] += 1
+                stats["link_tcp_drops" if d["drop"] == "1" else "link_udp_drops"] += 1
+            else:
+                if over: stats["link_undroppable_over_capacity"] += 1
+                s["fifo"].append((key, size, t)); s["held"] += size
+    if quiescent:
+        for q, s in sorted(st.items()):
+            if s["fifo"]:
+                f10.append(("conservation", "queue %s never forwarded %s (silently lost)" % (q, ["%s seq=%s t=%d" % (r[0][0], r[0][1], r[2]) for r in s["fifo"]][:4])))
+    return f10, stats
